@@ -227,6 +227,11 @@ func (e *Explorer) Input(c Cfg, text []byte) {
 				e.st.Calls += 2
 				e.st.Pairs++
 				ob2 := e.sane(c, b, o1, o2, v2, x, []int{p, q}, buf)
+				if e.Props["X-again"] && v2 == "more" && o2 < o1 {
+					// beyond the listed properties (Stream!MonotoneCont): the continuation offset never moves backwards
+					e.report("X-again", "the continuation offset moves backwards while more bytes are asked for", c, buf, []int{p, q}, "backwards:"+c.Kind,
+						fmt.Sprintf("after %d bytes: %d, after %d bytes: %d", p, o1, q, o2))
+				}
 				if v2 != F[q].verdict || o2 != F[q].offs {
 					e.report(propRes, "resumed call differs from fresh one-shot call (verdict/offset)", c, buf, []int{p, q},
 						"resume-vo:"+c.Kind,
